@@ -278,7 +278,8 @@ Outcomes(r, t) ==
              \* meanwhile: it is superseded, and it may still have held its slot when this account was looked up
              conc == r.h.u0 = "" /\ r.user # ""
              \* a pipelined command still unanswered when USER is answered has not started yet: it will see the new login
-             rc(q) == IF q.h2 = NoH THEN q ELSE [q EXCEPT !.h2.u0 = q.user, !.h2.c0 = q.cwd, !.h2.l0 = q.logged]
+             \* (a pipelined USER keeps its mark - u0 = "" - of having dropped the login when it started: see conc)
+             rc(q) == IF q.h2 = NoH \/ q.h2.v = "user" THEN q ELSE [q EXCEPT !.h2.u0 = q.user, !.h2.c0 = q.cwd, !.h2.l0 = q.logged]
              with(uu) == IF cand = {} THEN {Out(<<"530">>, rc(r1), uu1, used)}
                          ELSE LET u == CHOOSE c \in cand : TRUE IN
                               IF Locked(uu, u) THEN {Out(<<"530">>, rc(r1), uu1, used)}
